@@ -6,7 +6,7 @@ pipeline of the specification (Lexer -> Grammar -> Eval, spec/Trace_Lang.tla).
                                 every recorded operator application; the records are split into
                                 chunks validated by several TLC processes side by side
 """
-import json, os, random, concurrent.futures as cf
+import re, json, os, random, concurrent.futures as cf
 import vlib
 from vlib import ToolError
 
@@ -71,6 +71,52 @@ PARSER_REPAIRED = {"StaleSkip": "FALSE", "ParenReusesSkip": "FALSE", "EatIgnores
 DEFAULT_CONSTS = {"ZeroPowEarlyExit": "FALSE", "ZeroEntriesKept": "FALSE", "Temperature": "FALSE"}
 
 
+_NUM = re.compile(r'(\d+\.?\d*|\.\d+)(?:[eE]([+-]?\d+))?')
+
+
+def cheap(text):
+    """A conservative static bound on the size of the numbers an evaluation of `text` can produce.  A query that has not
+    returned within the recorder's patience is judged (as not terminating) only if this bound is small: exact arithmetic
+    on numbers of hundreds of thousands of digits, or a power taken from a looked-up fact, is slow but does terminate,
+    and the properties do not bound running time.
+      every power operand must be a literal integer of at most two digits, or a parenthesised expression over such
+      integers (bounded by the product of its literals + 1);  bound = (longest literal incl. exponent + 40 digits for a
+      fact or unit factor) x product of all powers x (number of literals and words + 1)  <= 50 000 digits"""
+    power = 1
+    for m in re.finditer(r'(\^|\*\*)', text):
+        rest = text[m.end():].lstrip(" \t")
+        if rest.startswith("("):
+            depth, j = 0, 0
+            for j, c in enumerate(rest):
+                depth += (c == "(") - (c == ")")
+                if depth == 0:
+                    break
+            inner = rest[:j + 1]
+            if re.search(r'[A-Za-z°.{}]', inner):
+                return False
+            b = 1
+            for n in re.findall(r'\d+', inner):
+                if len(n) > 2:
+                    return False
+                b *= int(n) + 1
+            power *= max(1, b)
+        else:
+            mm = re.match(r'[+-]?\s*(\d+)(?![\d.eE])', rest)
+            if not mm or len(mm.group(1)) > 2:
+                return False
+            power *= max(1, int(mm.group(1)))
+        if power > 10 ** 6:
+            return False
+    longest, count = 1, 0
+    for m in _NUM.finditer(text):
+        count += 1
+        e = abs(int(m.group(2))) if m.group(2) and len(m.group(2)) < 7 else (10 ** 6 if m.group(2) else 0)
+        longest = max(longest, len(m.group(1)) + e)
+    count += len(re.findall(r"[A-Za-z°']+", text))
+    return (longest + 40) * power * (count + 1) <= 50000
+
+
+
 _SELFTESTED = set()
 
 
@@ -90,6 +136,15 @@ def validate(chk, path, name, module="Trace_Lang", consts=None, fac="UStdFacR", 
             if isinstance(v, dict):
                 n += len(v.get("n", [])) + len(v.get("d", []))
         return n
+    # a query the recorder gave up on is judged (as not terminating) only if a static bound says it is cheap; slow exact
+    # arithmetic on huge numbers does terminate, and no property bounds running time
+    slow = [r for r in recs if isinstance(r, dict) and r.get("timeout") and not cheap(r.get("text", ""))]
+    if slow:
+        chk.skipped(len(slow))
+        for r in slow[:5]:
+            vlib.log("SLOW (not judged) %r: no result within the recorder's patience; numbers of this size are slow, not stuck" % r.get("text"))
+        ids = {id(r) for r in slow}
+        recs = [r for r in recs if id(r) not in ids]
     if module in ("Trace_Lang",):
         small = [r for r in recs if limbs(r) <= 10000]
         if len(small) < len(recs):
